@@ -108,6 +108,7 @@ End ReflLoop.
 
 (* ------------------------------------------------------------------ the search on (s, s) *)
 Section Refl.
+Variable exact : bool.
 Variable s : spec.
 (* every class whose rule has no children (verified classes) is an atom *)
 Hypothesis Hatoms : forall c r, find_rule s c = Some r -> r_children r = [] -> r_atom r = true.
@@ -116,9 +117,9 @@ Hypothesis Hne : forall c r, find_rule s c = Some r -> r_children r <> [] -> ne_
 
 Lemma base_cases_diag st p c r ne :
   failed st = [] -> find_rule s c = Some r ->
-  base_cases st p p c c r r ne ne = Ok 1 \/
-  (base_cases st p p c c r r ne ne = Ok 0 /\ r_children r <> []) \/
-  base_cases st p p c c r r ne ne = Raise 5.
+  base_cases exact st p p c c r r ne ne = Ok 1 \/
+  (base_cases exact st p p c c r r ne ne = Ok 0 /\ r_children r <> []) \/
+  base_cases exact st p p c c r r ne ne = Raise 5.
 Proof.
   intros Hf F. unfold base_cases.
   destruct (om_has (om st) (c, c)); [left; reflexivity|].
@@ -129,12 +130,12 @@ Proof.
     rewrite akey_eqb_refl. left; reflexivity. }
   destruct (r_isrule r); cbn [andb negb]; [|right; right; reflexivity].
   rewrite eqb_reflx. cbn [negb]. rewrite ctor_equiv_refl. cbn [negb].
-  destruct (existsb (fun q => pair_in q (anc st)) (list_prod p p)); [left; reflexivity|].
+  destruct (existsb (fun q => pair_in q (anc st)) (anc_pairs exact p p c c)); [left; reflexivity|].
   right; left. split; [reflexivity|]. intros X. rewrite X in Nil. discriminate.
 Qed.
 
 Lemma refl_iso : forall f st n b st',
-  failed st = [] -> iso s s f st n n = Ok (b, st') -> b = true /\ failed st' = [].
+  failed st = [] -> iso exact s s f st n n = Ok (b, st') -> b = true /\ failed st' = [].
 Proof.
   induction f as [|f IH]; intros st n b st' Hf; [discriminate|].
   cbn [iso].
@@ -145,14 +146,14 @@ Proof.
   - change (Z.eqb 1 1) with true. cbv iota. intros H; inversion H; subst; auto.
   - change (Z.eqb 0 1) with false. change (Z.eqb 0 (-1)) with false. cbv iota.
     set (nn := length (ne_children s r)).
-    set (sA := mkSt (set_add_all (anc st) (list_prod p p)) (om st) (failed st)).
-    destruct (iso_loop (iso s s f) (S f) (ne_children s r) (ne_children s r) nn (init_stack nn) []
+    set (sA := mkSt (set_add_all (anc st) (anc_pairs exact p p c c)) (om st) (failed st)).
+    destruct (iso_loop (iso exact s s f) (S f) (ne_children s r) (ne_children s r) nn (init_stack nn) []
                        (repeat (-1) nn) sA) as [[ro s0]| |] eqn:El; cbn [bind]; try discriminate.
     destruct nn as [|m] eqn:En.
     + exfalso. apply (Hne c r F Hch). apply length_zero_iff_nil. exact En.
     + rewrite init_stack_eq in El. change (seq 0 (S m)) with (0%nat :: seq 1 m) in El. cbn [map] in El.
       assert (X : ro <> None /\ failed s0 = []).
-      { eapply (refl_loop (ne_children s r) (S m) En (iso s s f) IH (S f) O); [lia| |exact El].
+      { eapply (refl_loop (ne_children s r) (S m) En (iso exact s s f) IH (S f) O); [lia| |exact El].
         exact Hf. }
       destruct X as [Hro Hf0]. destruct ro as [co|]; [|congruence].
       intros H; inversion H; subst. auto.
@@ -160,7 +161,7 @@ Proof.
 Qed.
 
 (* Isomorphism.check(s, s) never answers False *)
-Theorem refl_never_false : forall fuel st', are_isomorphic s s fuel <> Ok (false, st').
+Theorem refl_never_false : forall fuel st', are_isomorphic exact s s fuel <> Ok (false, st').
 Proof.
   intros fuel st' H. unfold are_isomorphic in H.
   assert (F0 : failed st0 = []) by reflexivity.
